@@ -19,6 +19,9 @@ def parse_token(payload: bytes):
     """Item tokens are small ints: dumps_internal(int) = b'F' + 4 bytes + b'Q' (format pinned by C12)."""
     if len(payload) == 6 and payload[0:1] == b"F" and payload[5:6] == b"Q":
         return struct.unpack("!i", payload[1:5])[0]
+    # a big item (token, bytes): INT token, BYTES ..., BUILDTUPLE 2
+    if payload[0:1] == b"F" and payload[5:6] == b"A" and payload.endswith(b"@\x00\x00\x00\x02Q"):
+        return struct.unpack("!i", payload[1:5])[0]
     # a channel object (CHANNEL opcode + id), plain or as {"k": [channel]}: token 100000 + id
     if len(payload) == 6 and payload[0:1] == b"B" and payload[5:6] == b"Q":
         return 100000 + struct.unpack("!i", payload[1:5])[0]
